@@ -37,7 +37,7 @@ func C02(run *vf.Run) {
 	// a second disruptive rule in any phase (before, in, or after the phase of the first special rule)
 	txm.ReplayEdges(run, txm.MCOpts{Name: "two-disruptive-edges", Engines: `{"On", "DetectionOnly"}`, ReqLimits: "{2}", Ks: "{3}", Modes: `{"slice"}`,
 		CallNames:    vf.Pick(run, `{"PRH", "PRB", "PRSH", "PRSB", "PL"}`, `{"PRH", "PRB", "PRSH", "PRSB", "PL", "WREQ"}`),
-		DisruptKinds: vf.Pick(run, `{"deny", "redirect", "ctlDet", "ctlOn"}`, `{"deny", "drop", "redirect301late", "ctlDet", "ctlOn", "ctlOff"}`),
+		DisruptKinds: vf.Pick(run, `{"deny", "redirect", "ctlDet", "ctlOn", "ctlOff"}`, `{"deny", "drop", "redirect301late", "ctlDet", "ctlOn", "ctlOff"}`),
 		Phases2:      "{1, 2, 3, 4, 5}", Qs: "{1, 2, 3, 4, 5}", ReqShapes: vf.Pick(run, `{"off/Reject"}`, `{"off/Reject", "on/Reject"}`), RespShapes: `{"off/Reject"}`,
 		Workers: 14, Timeout: vf.Pick(run, 15*time.Minute, 120*time.Minute), Relevant: rel})
 	if run.NumViolations() > 0 {
